@@ -96,13 +96,6 @@ fn cursors_for(rng: &mut Rng, input: &str) -> Vec<u32> {
 
 fn check_one(out: &mut CaseOut, input: &str, cfg: &Cfg, cursors: &[u32], what: &str) {
     out.evals += 1;
-    if let Some(path) = std::env::var_os("VERIF_TRACE_INPUTS") {
-        // debugging aid for hangs: the last line of the file is the call that did not return
-        use std::io::Write;
-        if let Ok(mut f) = std::fs::OpenOptions::new().create(true).append(true).open(path) {
-            let _ = writeln!(f, "{}", json!({"input": input, "cfg": cfg.short(), "cursors": cursors, "what": what}));
-        }
-    }
     let c0 = exec::thread_cpu_ms();
     let obs = exec::format_obs(cfg, input, cursors, exec::step_budget(input.len()));
     let cpu_ms = exec::thread_cpu_ms() - c0;
@@ -161,7 +154,64 @@ pub fn describe(ctx: &Ctx, idx: u64) -> Option<String> {
     Some(format!("C04 case {idx}: segment {:?} local index {local}; re-run with `pfmon solo C04 {} {} {idx} <workdir>`", seg, ctx.tier.name(), ctx.seed))
 }
 
+/// block openers still open at the deepest point of the text, and whether a bracket or a text
+/// literal is left open: the shape of the hostile inputs on which the wrapper's nested searches
+/// take minutes to hours (known finding deep-nesting-unbalanced-slow)
+fn nesting_profile(input: &str) -> (usize, bool) {
+    use crate::refscan::RK;
+    let toks = crate::refscan::scan(input);
+    let (mut depth, mut max_depth) = (0usize, 0usize);
+    let (mut paren, mut brack) = (0i64, 0i64);
+    let mut unbalanced = false;
+    for t in &toks {
+        let s = t.text(input);
+        match t.kind {
+            RK::Word => match s.to_ascii_lowercase().as_str() {
+                "begin" | "case" | "try" | "repeat" | "record" | "class" | "asm" => {
+                    depth += 1;
+                    max_depth = max_depth.max(depth);
+                }
+                "end" | "until" => depth = depth.saturating_sub(1),
+                _ => {}
+            },
+            RK::Op => match s {
+                "(" => paren += 1,
+                ")" => {
+                    paren -= 1;
+                    if paren < 0 {
+                        unbalanced = true;
+                        paren = 0;
+                    }
+                }
+                "[" => brack += 1,
+                "]" => {
+                    brack -= 1;
+                    if brack < 0 {
+                        unbalanced = true;
+                        brack = 0;
+                    }
+                }
+                _ => {}
+            },
+            RK::UntermStr => unbalanced = true,
+            _ => {}
+        }
+        if t.unterminated {
+            unbalanced = true;
+        }
+    }
+    (max_depth, unbalanced || paren != 0 || brack != 0)
+}
+
 impl Prop for C04 {
+    fn classify_hang(&self, input: &str) -> Option<String> {
+        let (depth, unbalanced) = nesting_profile(input);
+        if depth >= 12 && unbalanced {
+            Some("deep-nesting-unbalanced-slow".to_string())
+        } else {
+            None
+        }
+    }
     fn id(&self) -> &'static str {
         "C04"
     }
